@@ -63,8 +63,19 @@ type icaExec struct {
 
 func newIcaExec() *icaExec {
 	a, b := ChainN(1), ChainN(2)
+	// make the two ends' connection ids differ (the controller end gets a higher number than the host end):
+	// every ICA store is keyed by the *local* connection id, and code that confuses the controller's and
+	// the host's id must not be masked by both being connection-0
+	pre := ibctesting.NewPath(a, b)
+	pre.SetupClients()
+	if err := pre.EndpointA.ConnOpenInit(); err != nil {
+		panic(err)
+	}
 	base := ibctesting.NewPath(a, b)
 	base.SetupConnections()
+	if base.EndpointA.ConnectionID == base.EndpointB.ConnectionID {
+		panic("ica engine: controller and host connection ids must differ")
+	}
 	return &icaExec{a: a, b: b, base: base}
 }
 
